@@ -434,6 +434,54 @@ func jobC02(c *rt.Ctx) {
 			c.Violation("C02 held-results", fmt.Sprintf("result %d (signatures and keys alternate) changed or was wrong after the caller appended to result %d (%s)", j, i, sv.v), map[string]interface{}{"held": j, "appended_to": i, "variant": sv.v.String()})
 		}
 	}
+	// (7) caller buffers refilled between calls: ONE 64-byte key buffer and one message buffer; key 1 signs,
+	// the buffer is overwritten in place with key 2 (and the message buffer with another message), key 2
+	// signs, key 1 again from a fresh slice, ... Every signature is the RFC 8032 one for the bytes passed
+	// at that call (a memo of the last key expansion that keeps the caller's slice compares the buffer
+	// with itself)
+	c.Require("buffer-reuse")
+	for g, sv := range []signVariant{{ref.Pure, ""}, {ref.Ctx, "reuse"}, {ref.Ph, "reuse"}} {
+		if !c.Take() {
+			continue
+		}
+		c.Class("buffer-reuse")
+		c.Distinct(fmt.Sprintf("bufreuse %d", g), true)
+		kb := make([]byte, 64)
+		mb := make([]byte, 64)
+		o := &Options{Context: sv.ctx}
+		if sv.v == ref.Ph {
+			o.Hash = crypto.SHA512
+		}
+		order := []int{0, 1, 0, 2, 2, 1, 3, 0, 3, 3, 1}
+		for step, ki := range order {
+			seed := seedOf(7400 + ki)
+			full := append(append([]byte{}, seed...), refPublic(7400+ki)...)
+			msg := msgLen(64, step%3)
+			var priv PrivateKey
+			switch step % 3 {
+			case 0, 1: // through the shared buffers
+				copy(kb, full)
+				copy(mb, msg)
+				priv = PrivateKey(kb)
+				msg = mb
+			default: // fresh slices holding the same bytes
+				priv = PrivateKey(append([]byte{}, full...))
+			}
+			sig, err := priv.Sign(nil, msg, o)
+			want := ref.Sign(seed, msg, sv.v, []byte(sv.ctx))
+			c.Step(1)
+			if err != nil || !bytes.Equal(sig, want) {
+				c.Violation("C02 buffer-reuse", fmt.Sprintf("step %d (key %d, %s): the signature is not the RFC 8032 one for the key and message bytes passed at this call (the key buffer held another key before)", step, ki, sv.v),
+					map[string]interface{}{"step": step, "key": ki, "variant": sv.v.String(), "expected": ref.Hex(want), "observed": ref.Hex(sig), "err": fmt.Sprint(err)})
+				break
+			}
+			if step%4 == 3 {
+				for i := range kb { // the caller wipes the key buffer between uses
+					kb[i] = 0
+				}
+			}
+		}
+	}
 }
 
 // C03: every produced signature is accepted by every verifier.
@@ -562,6 +610,49 @@ func jobC03(c *rt.Ctx) {
 				c.Step(1)
 				if bpv != nil || err != nil || len(valid) != 5 || !valid[2] {
 					c.Violation(fmt.Sprintf("C03 msglen-sweep batch variant=%s", vs.v), fmt.Sprintf("own signature over a %d-byte message rejected as batch member", l), map[string]interface{}{"msg_len": l, "variant": vs.String()})
+				}
+			}
+		}
+	}
+	// variant sequences: signatures under ctx and ph with the SAME context string made back to back (either
+	// order, also pure in between), then traffic under another context, then all of them verified - single,
+	// ZIP-215 and as members of a batch. What one variant leaves behind must not leak into the next.
+	c.Require("variant-sequence")
+	{
+		seqs := [][]variantSpec{
+			{{ref.Ctx, "shared"}, {ref.Ph, "shared"}}, {{ref.Ph, "shared"}, {ref.Ctx, "shared"}},
+			{{ref.Ctx, "shared"}, vPure, {ref.Ph, "shared"}}, {{ref.Ph, ""}, {ref.Ctx, "shared"}, {ref.Ph, "shared"}, {ref.Ctx, "shared"}},
+			{{ref.Ctx, "shared"}, {ref.Ctx, "shared2"}, {ref.Ph, "shared"}, {ref.Ph, "shared2"}},
+		}
+		for si, sq := range seqs {
+			for traffic := 0; traffic < 2; traffic++ {
+				if !c.Take() {
+					continue
+				}
+				c.Class("variant-sequence")
+				c.Distinct(fmt.Sprintf("varseq %d %d", si, traffic), true)
+				digest := msgOf(0, vPh)
+				var ts []triple
+				for i, vs := range sq {
+					ts = append(ts, libTriple(4300+i, digest, vs))
+				}
+				other := variantSpec{ref.Ctx, "other-traffic"}
+				ot := modelTriple(4310, digest, other)
+				for i, vs := range sq {
+					for _, zip := range []bool{false, true} {
+						if traffic == 1 {
+							// a call under an unrelated context right before each verification: the verifier
+							// starts from whatever THAT call left, not from what the signing sequence left
+							implSingle(ot, other, false)
+						}
+						got, pv := implSingle(ts[i], vs, zip)
+						_, valid, err, bpv := implBatch(batchWith(ts[i], 1, 5, vs), vs, zip, rt.NewRng(c.Seed, "varseq"))
+						c.Step(2)
+						if !got || pv != nil || err != nil || bpv != nil || len(valid) != 5 || !valid[1] {
+							c.Violation(fmt.Sprintf("C03 variant-sequence variant=%s", vs.v), fmt.Sprintf("own signature number %d of the sequence %v (made under %s) rejected afterwards: single %v (panic %v), batch %v (err %v), zip215=%v", i, sq, vs, got, pv, valid, err, zip),
+								map[string]interface{}{"sequence": fmt.Sprint(sq), "index": i, "zip215": zip})
+						}
+					}
 				}
 			}
 		}
